@@ -11,6 +11,13 @@ def run(chk, tier):
     g = G.run(tier)
     O.engine_health(chk, g)
     O.c10(chk, g)
+    # composition: every abstract setting the gensalt grid produces is fed into crypt_rn
+    from .. import compose_grid as C
+    cg = C.run(tier)
+    per = C.oracle(chk, cg)
+    chk.note("composition", {"cells": cg["ncells"], "per_method": per, "engine_wall_s": round(cg["wall"], 1),
+                             "not_composed": {"$y$ / $gy$": "crypt path not covered by the interpreter"},
+                             "digit_fields_concretised": sorted(C.CONCRETISE_DIGITS)})
     npaths = sum(c["npaths"] for c in g["res"].values())
     chk.note("grid", {"cells": g["ncells"], "abstract_paths": npaths, "engine_wall_s": round(g["wall"], 1), "from_cache": g["cached"],
                       "prefix_classes": sorted({(m["prefix"] or b"<NULL>").decode("latin1") + ("+tail" if m["tail"] else "") for m in g["meta"].values()}),
